@@ -169,7 +169,35 @@ func (b *byzProxy) mutate(from *Endpoint, p []byte) []byte {
 		cur = fr.Stream
 	}
 	q := append([]byte(nil), p...)
-	switch ch.Weighted("net", []int{3, 2, 3, 2, 1, 2, 1}) {
+	switch ch.Weighted("net", []int{3, 2, 3, 2, 1, 2, 1, 4}) {
+	case 7: // damage a genuine invoke-metadata packet in flight: truncate its payload or flip a byte of it
+		var out []byte
+		rest, hit := p, false
+		for len(rest) > 0 {
+			fr, ok, err := refParseFrame(rest)
+			if !ok || err != nil {
+				out = append(out, rest...)
+				break
+			}
+			rest = rest[fr.Size:]
+			// the final frame of the packet: truncating it truncates the encoded map's tail
+			if fr.Kind == kInvokeMD && fr.Done && len(fr.Data) > 0 && !hit {
+				hit = true
+				d := append([]byte(nil), fr.Data...)
+				if ch.Bool("net", 0.7) {
+					d = d[:len(d)-(1+ch.Pick("net", min(3, len(d))))]
+				} else {
+					d[ch.Pick("net", len(d))] ^= byte(1 + ch.Pick("net", 255))
+				}
+				fr.Data = d
+			}
+			out = refAppendFrame(out, fr)
+		}
+		if hit {
+			b.hit("metadata-damage")
+			return out
+		}
+		return p
 	case 0: // flip one byte
 		if len(q) > 0 {
 			q[ch.Pick("net", len(q))] ^= byte(1 + ch.Pick("net", 255))
